@@ -28,5 +28,9 @@ fn extra_chunk(v: &mut Vec<(&'static str, String)>) {
     v.push((stringify!(core::cell::RefCell<String>), HostTypeResolver.type_info::<core::cell::RefCell<String>>().name));
     v.push((stringify!(core::cell::Cell<Option<u8>>), HostTypeResolver.type_info::<core::cell::Cell<Option<u8>>>().name));
     v.push((stringify!(corpus_types::Pair<core::cell::RefCell<String>, core::cell::Cell<Option<u8>>>), HostTypeResolver.type_info::<corpus_types::Pair<core::cell::RefCell<String>, core::cell::Cell<Option<u8>>>>().name));
+    v.push((stringify!(corpus_types::Grid<2, 3, String>), HostTypeResolver.type_info::<corpus_types::Grid<2, 3, String>>().name));
+    v.push((stringify!(corpus_types::Grid<1, 1, Option<Vec<u8>>>), HostTypeResolver.type_info::<corpus_types::Grid<1, 1, Option<Vec<u8>>>>().name));
+    v.push((stringify!(corpus_types::Borrowed<'static, String>), HostTypeResolver.type_info::<corpus_types::Borrowed<'static, String>>().name));
+    v.push((stringify!(corpus_types::Pair<corpus_types::Grid<2, 2, Box<str>>, corpus_types::Borrowed<'static, Vec<String>>>), HostTypeResolver.type_info::<corpus_types::Pair<corpus_types::Grid<2, 2, Box<str>>, corpus_types::Borrowed<'static, Vec<String>>>>().name));
     v.push((stringify!(core::marker::PhantomData<String>), HostTypeResolver.type_info::<core::marker::PhantomData<String>>().name));
 }
